@@ -950,6 +950,7 @@ def run(ctx):
     FALSY_SEEN.clear()
     from cuqiverif import c17_field
     c17_field.SEEN.clear()
+    c17_field.STATS.clear()
     # 1. the specifications, model-checked
     rc = ctx.tlc("Conv", cfg="Conv.%s.cfg" % tier, workers=16, timeout=1500)
     ctx.model_must_hold(rc, "Conv")
